@@ -38,6 +38,7 @@ RULE = ("text stream: every truncation of hand-written documents and of tests/fi
         "no_location=True; stripped of loc and source as a hand-built / visitor-rewritten document); HOSTILE TEXT (%, %s, %(x)s, {}, {0}, backslashes, "
         "quotes, line ends, NUL, astral, lone surrogates, 5000 characters) in every request string that reaches an error message: rejected variable values "
         "(scalars, enums, lists, input objects, keys), operation names, literals echoed by validation, variable defaults, resolver messages and extensions; "
+        "non-finite floats bare and nested in lists / objects at custom-scalar positions, as variables (echoed) and as resolver results; "
         "resolver error messages that are not str (wrapped exceptions, numbers, None, bytes, lists); "
         "ResolverErrors raised while a value is COMPLETED (resolve_type of abstract types, lazy iterables failing mid-iteration, custom serialisers) "
         "at object/list/leaf positions; @skip/@include on fields, inline fragments and spreads whose condition only fails at execution time "
@@ -496,6 +497,8 @@ def check_case(ctx, case, pending):
     for sig, d in problems:
         if sig.startswith("response-raises:IndexError") and internal and internal[0] == "range":
             sig = "syntax-error-position-out-of-range"
+        if sig == "non-finite-float-in-response":
+            sig += ":" + nonfinite_position(schema, resp)
         if sig == "response-raises:TypeError" and "returned non-string" in d and world is not None and world.injected_nonstr:
             sig = "resolver-error-message-not-str"      # ResolverError(<exception / int / None>): the message is not coerced
         fail(sig, "response is not strict JSON / not serialisable: " + d)
@@ -669,6 +672,49 @@ def check_case(ctx, case, pending):
     return sigs
 
 
+def nonfinite_position(schema, resp):
+    """'float-field' | 'custom-scalar' | 'extensions' | 'other': the kind of place of the first non-finite float of a response"""
+    from py_gql.schema import ListType, NonNullType, ScalarType, SPECIFIED_SCALAR_TYPES
+
+    def find(v, path):
+        if isinstance(v, float) and v != v or v in (float("inf"), float("-inf")):
+            return path
+        if isinstance(v, dict):
+            for k, x in v.items():
+                r = find(x, path + [k])
+                if r is not None:
+                    return r
+        if isinstance(v, (list, tuple)):
+            for i, x in enumerate(v):
+                r = find(x, path + [i])
+                if r is not None:
+                    return r
+        return None
+    for e in (resp.get("errors") or []):
+        if find(e, []) is not None:
+            return "extensions"
+    path = find(resp.get("data"), [])
+    if path is None:
+        return "other"
+    t = schema.query_type
+    try:
+        for seg in path:
+            while isinstance(t, (ListType, NonNullType)):
+                t = t.type
+            if isinstance(t, ScalarType):
+                break
+            if isinstance(seg, int):
+                continue
+            t = t.field_map[seg].type
+        while isinstance(t, (ListType, NonNullType)):
+            t = t.type
+        if isinstance(t, ScalarType):
+            return "float-field" if t in SPECIFIED_SCALAR_TYPES else "custom-scalar"
+    except Exception:  # noqa: aliases, mutations: position unknown
+        pass
+    return "other"
+
+
 def depth(v):
     if isinstance(v, dict):
         return 1 + max([depth(x) for x in v.values()] or [0])
@@ -695,7 +741,7 @@ scalar Sc
 enum Color { RED GREEN }
 type Query { a(x: Int, s: String): Int, b: String!, f: Float, l: [Int!]!, o: Obj, os: [Obj!], u: Un, oss: [[Obj]],
   us: [Un!], un: Un!, uss: [[Un]], sc: Sc, scs: [Sc!]!, num(i: Int, fl: Float, id: ID, sc: Sc, b: Boolean, fls: [Float!], c: Color): Int,
-  echoI(i: Int): Int, echoF(fl: Float): Float, echoId(id: ID): ID, echoS(s: String): String }
+  echoI(i: Int): Int, echoF(fl: Float): Float, echoId(id: ID): ID, echoS(s: String): String, echoSc(sc: Sc): Sc, echoScs(scs: [Sc!]): [Sc] }
 type Obj { id: ID!, n: Obj, v: Float!, w(x: Int! = 7): Int, p(among: [Int!]): Int!, q(i: In): Int, ns: [Obj!]! }
 type Other { z: Int }
 union Un = Obj | Other
@@ -776,15 +822,15 @@ def install_world_resolvers(schema, holder, asyncio_mode=False):
         # while being completed — while resolvers of its sub-fields are still queued in the pool; such a late worker then wrote
         # into the log of the NEXT request and produced a phantom "expected" path.)
         if is_async:
-            async def resolver(root, c, info, **args):
-                return c.run(info, ftype)
+            async def resolver(_root, _world, _info, **args):
+                return _world.run(_info, ftype)
         else:
-            def resolver(root, c, info, **args):
-                return c.run(info, ftype)
+            def resolver(_root, _world, _info, **args):
+                return _world.run(_info, ftype)
         return resolver
     from py_gql.schema import InterfaceType, UnionType, ScalarType, SPECIFIED_SCALAR_TYPES
 
-    def resolve_type(value, c, info):
+    def resolve_type(value, _world, _info):
         if isinstance(value, dict) and "__raise__" in value:
             value["__raise__"]("cannot resolve the type")      # raises ResolverError
         return value.get("__typename__") if isinstance(value, dict) else None
@@ -799,7 +845,7 @@ def install_world_resolvers(schema, holder, asyncio_mode=False):
         if isinstance(t, ObjectType) and not t.name.startswith("__"):
             for i, f in enumerate(t.fields):
                 if f.name.startswith("echo"):
-                    f.resolver = lambda root, c, info, **args: (list(args.values()) or [None])[0]
+                    f.resolver = lambda _root, _world, _info, **args: (list(args.values()) or [None])[0]
                 else:
                     f.resolver = make(f.type, asyncio_mode and (i % 2 == 0))
         elif isinstance(t, (InterfaceType, UnionType)):
@@ -978,6 +1024,13 @@ def _run(ctx, rng, pending):
                 text = "query($x: %s%s) { num(%s: $x) %s }" % (ty, nn, arg, {"i": "echoI(i: $x)", "fl": "echoF(fl: $x)", "id": "echoId(id: $x)"}.get(arg, "a"))
                 cfg = CONFIGS[(j + len(nn)) % 4]
                 check_case(ctx, make_case("extremes", BASE_SDL, base, cfg, text, None, {"x": x}, quiet_world), pending)
+    nan = float("nan")
+    nested = [inf, nan, {"a": inf, "b": nan}, [1, [-inf]], {"deep": [{"x": [1.5, {"y": nan}]}]}, [1e308, 2.5], {"ok": [1, 2.5, "s", None]}, (1, inf)]
+    for j, x in enumerate(nested):
+        for text, vs in (("query($v: Sc) { echoSc(sc: $v) a }", {"v": x}), ("query($v: [Sc!]) { echoScs(scs: $v) }", {"v": [1, x]}),
+                         ("query($v: Sc!) { os { id } echoSc(sc: $v) }", {"v": x})):
+            for cfg in CONFIGS:
+                check_case(ctx, make_case("extremes", BASE_SDL, base, cfg, text, None, vs, quiet_world), pending)
     lits = ["1e999", "-1e999", "1e308", "1e-999", "1e-320", "99999999999999999999999999", "-99999999999999999999999999", "2147483648", "-2147483649",
             "2147483647", "1" + "0" * 400, "0.0000000000000000000000000000000000000001", "1E400"]
     for j, lit in enumerate(lits):
@@ -1036,6 +1089,7 @@ def _run(ctx, rng, pending):
         # (verified); the restriction only keeps that noise out of the run.
         for cfg in (["blocking", "default"] if k < 2 else ["blocking"]):
             check_case(ctx, make_case("nonfinite", BASE_SDL, base, cfg, "{ f o { v } os { v } }", None, None, w), pending)
+            check_case(ctx, make_case("nonfinite", BASE_SDL, base, cfg, "{ sc scs a }", None, None, w), pending)
     flush(ctx, pending)
     # --- generated schemas x documents x payloads x worlds ------------------------------------
     n_schemas = 0
